@@ -1800,7 +1800,10 @@ class SupplyChainNode(object):
 					# Reset to default values.
 					value = copy.deepcopy(cls._DEFAULT_VALUES[attr_name])
 				elif attr_name == 'demand_source':
-					if attr_name in the_dict:
+					if attr_name in the_dict and the_dict[attr_name] is None:
+						# The attribute was None when the node was converted to a dict.
+						value = None
+					elif attr_name in the_dict:
 						if 'dict_type' in the_dict[attr_name] and the_dict[attr_name]['dict_type'] == 'product_keyed_attribute':
 							# Attribute is product-keyed dict; convert keys to int (they were probably
 							# saved as strings) and undictify objects.
@@ -1810,7 +1813,10 @@ class SupplyChainNode(object):
 					else:
 						value = demand_source.DemandSource.from_dict(None)
 				elif attr_name == 'disruption_process':
-					if attr_name in the_dict:
+					if attr_name in the_dict and the_dict[attr_name] is None:
+						# The attribute was None when the node was converted to a dict.
+						value = None
+					elif attr_name in the_dict:
 						if 'dict_type' in the_dict[attr_name] and the_dict[attr_name]['dict_type'] == 'product_keyed_attribute':
 							value = {int(k): disruption_process.DisruptionProcess.from_dict(v) for k, v in the_dict[attr_name].items() if k != 'dict_type'}
 						else:
@@ -1818,7 +1824,10 @@ class SupplyChainNode(object):
 					else:
 						value = disruption_process.DisruptionProcess.from_dict(None)
 				elif attr_name == '_inventory_policy':
-					if attr_name in the_dict:
+					if attr_name in the_dict and the_dict[attr_name] is None:
+						# The attribute was None when the node was converted to a dict.
+						value = None
+					elif attr_name in the_dict:
 						if 'dict_type' in the_dict[attr_name] and the_dict[attr_name]['dict_type'] == 'product_keyed_attribute':
 							value = {int(k): policy.Policy.from_dict(v) for k, v in the_dict[attr_name].items() if k != 'dict_type'}
 							for k in value:
